@@ -4052,6 +4052,14 @@ impl<'a> ZonedDifference<'a> {
                 ));
             }
         }
+        // When no whole day lies between the two, the intermediate datetime
+        // is the starting datetime itself. Measure the remainder from the
+        // starting *instant* then: re-resolving its civil datetime yields a
+        // different instant when `zdt1` is the later instant of a fold, and
+        // adding the result back to `zdt1` would not give `zdt2`.
+        if mid == dt1 {
+            zmid = zdt1.clone();
+        }
         let remainder_nano = zdt2.timestamp().as_nanosecond_ranged()
             - zmid.timestamp().as_nanosecond_ranged();
         dt2 = mid;
